@@ -207,12 +207,13 @@ def splitDotL : List Char → Option (List Char × List Char)
 def splitDot (s : String) : Option (String × String) :=
   (splitDotL s.toList).map (fun ab => (String.ofList ab.1, String.ofList ab.2))
 
-def renameLabelRef (fixed : Bool) (old new : String) (rel : String) : Except SimErr String :=
+def renameLabelRef (fixed : Bool) (old new : String) (moved : List String) (rel : String) : Except SimErr String :=
   match splitDot rel with
   | none => .error .crash          -- IndexError in Python
   | some (lbl, mdl) =>
     if fixed then
-      if lbl == old then .ok (new ++ "." ++ mdl) else .ok rel
+      -- repaired: `parts = rel.split('.', 1)`; only references to models that were moved
+      if lbl == old && moved.contains mdl then .ok (new ++ "." ++ mdl) else .ok rel
     else
       match mdl.toList with
       | [] => .error .crash        -- IndexError
@@ -223,13 +224,14 @@ def renameLabelRef (fixed : Bool) (old new : String) (rel : String) : Except Sim
           | c1 :: _ => .ok (new ++ "." ++ String.singleton c1)
         else .ok rel
 
-def rewriteLabelRefs (fixed : Bool) (p : ProjectSig) (old new : String) : Except SimErr ProjectSig := do
+def rewriteLabelRefs (fixed : Bool) (p : ProjectSig) (old new : String) (moved : List String) :
+    Except SimErr ProjectSig := do
   let apps ← p.apps.mapM (fun a => do
     let models ← a.models.mapM (fun m => do
       let fields ← m.fields.mapM (fun f =>
         match f.related with
         | some r => do
-          let r' ← renameLabelRef fixed old new r
+          let r' ← renameLabelRef fixed old new moved r
           pure { f with related := some r' }
         | none => pure f)
       pure { m with fields := fields })
@@ -284,7 +286,7 @@ def simulate (e : Env) (fl : Flags) (c : Ctx) (mu : Mutation) (p : ProjectSig) :
           (if old == new then oldApp2 else newApp)
         let p2 := if old == new then p1.putApp newApp2 else (p1.putApp oldApp2).putApp newApp2
         let p3 := if old != new && oldApp2.models.isEmpty then p2.removeApp oldApp2.id else p2
-        let p4 ← rewriteLabelRefs fl.renameAppLabelFixed p3 old new
+        let p4 ← rewriteLabelRefs fl.renameAppLabelFixed p3 old new (models.map (·.name))
         pure (p4, { c with appLabel := new })
     | .sqlMutation _ canSim => if canSim then pure (p, c) else .error .cannotSimulate
     | _ => .error .metaUnknown
